@@ -19,7 +19,7 @@ class MachineryError(Exception):
 
 def _env(extra=None):
     env = dict(os.environ)
-    env["JAVA_TOOL_OPTIONS"] = "-Xss256m"
+    env["JAVA_TOOL_OPTIONS"] = "-Xss256m -Xmx3g" if (extra or {}).get("TRACE_FILE") else "-Xss256m"
     if extra:
         env.update(extra)
     return env
@@ -197,35 +197,61 @@ def validate_traces(module, claim, traces, *, shard=400, timeout=1800, jobs=None
     stats = {"generated": 0, "distinct": 0, "runs": 0, "wall": 0.0}
     verdicts = {}
     try:
-        def one(k):
-            path = os.path.join(work, "batch%d.json" % k)
+        def run_batch(name, batch, tmo):
+            path = os.path.join(work, "%s.json" % name)
             with open(path, "w") as f:
-                json.dump(dict(batch_extra or {}, traces=shards[k]), f)
-            r = run_tlc(module, TRACE_CFG % claim + extra_constants, workers=1, timeout=timeout,
-                        extra_env={"TRACE_FILE": path})
+                json.dump(dict(batch_extra or {}, traces=batch), f)
+            try:
+                r = run_tlc(module, TRACE_CFG % claim + extra_constants, workers=1, timeout=tmo,
+                            extra_env={"TRACE_FILE": path})
+            except MachineryError as e:
+                r = {"out": "", "generated": 0, "distinct": 0, "wall": tmo, "failed": str(e)}
             os.unlink(path)
-            return k, r
+            if "Model checking completed. No error has been found." not in r["out"]:
+                r["failed"] = r.get("failed") or tlc_error_summary(r["out"])
+            return r
 
-        with ThreadPoolExecutor(max_workers=jobs or min(NCPU, len(shards))) as ex:
-            for k, r in ex.map(one, range(len(shards))):
-                if "Model checking completed. No error has been found." not in r["out"]:
-                    raise MachineryError("trace validation run failed (%s shard %d):\n%s\n%s" % (
-                        module, k, tlc_error_summary(r["out"]), r["out"][-3000:]))
-                got = printed_tuples(r["out"], "VERDICT")
-                ids = set()
-                for t in got:
-                    _, tid, verdict, drift, live = t[:5]
-                    verdicts[tid] = {"verdict": verdict, "drift": drift, "live": sorted(live["set"])}
-                    if len(t) > 5:
-                        verdicts[tid]["info"] = t[5]
-                    ids.add(tid)
-                missing = [t["id"] for t in shards[k] if t["id"] not in ids]
+        def take(batch, r):
+            got = printed_tuples(r["out"], "VERDICT")
+            ids = set()
+            for t in got:
+                _, tid, verdict, drift, live = t[:5]
+                verdicts[tid] = {"verdict": verdict, "drift": drift, "live": sorted(live["set"])}
+                if len(t) > 5:
+                    verdicts[tid]["info"] = t[5]
+                ids.add(tid)
+            stats["generated"] += r["generated"]
+            stats["distinct"] += r["distinct"]
+            stats["runs"] += 1
+            stats["wall"] += r["wall"]
+            return [t for t in batch if t["id"] not in ids]
+
+        def one(k):
+            r = run_batch("batch%d" % k, shards[k], timeout)
+            if not r.get("failed"):
+                missing = take(shards[k], r)
                 if missing:
-                    raise MachineryError("no VERDICT line for traces %s (%s)\n%s" % (missing[:5], module, r["out"][-2000:]))
-                stats["generated"] += r["generated"]
-                stats["distinct"] += r["distinct"]
-                stats["runs"] += 1
-                stats["wall"] += r["wall"]
+                    raise MachineryError("no VERDICT line for traces %s (%s)\n%s" % ([t["id"] for t in missing][:5], module, r["out"][-2000:]))
+                return []
+            # the shard failed (timeout, out of memory, evaluation error): retry every trace on its own
+            bad = []
+            for j, t in enumerate(shards[k]):
+                r1 = run_batch("batch%d_%d" % (k, j), [t], 180)
+                if r1.get("failed") or take([t], r1):
+                    bad.append((t["id"], (r1.get("failed") or "no verdict")[:300]))
+            return bad
+
+        inconclusive = []
+        with ThreadPoolExecutor(max_workers=jobs or min(NCPU, len(shards))) as ex:
+            for bad in ex.map(one, range(len(shards))):
+                inconclusive.extend(bad)
+        stats["inconclusive"] = inconclusive
+        # evaluation errors that are not resource problems are bugs of the trace spec: fail loudly
+        hard = [b for b in inconclusive if "timed out" not in b[1] and "memory" not in b[1] and "StackOverflow" not in b[1]]
+        if hard:
+            raise MachineryError("TLC could not evaluate traces %s (%s): %s" % ([b[0] for b in hard][:5], module, hard[0][1]))
+        if len(inconclusive) > max(3, len(traces) // 50):
+            raise MachineryError("too many traces beyond TLC's resources: %s" % [b[0] for b in inconclusive][:10])
     finally:
         shutil.rmtree(work, ignore_errors=True)
     return verdicts, stats
